@@ -759,3 +759,218 @@ Proof.
   cbn [sink_write fst]. destruct (Nat.leb_spec pos (length s)) as [Hbad|_]; [lia|].
   apply IH. lia.
 Qed.
+
+(* ------------------------------------------------------------------------------------------ *)
+(* fuel adequacy, for EVERY format text (well-formed or not): the loops never run out of fuel *)
+
+Lemma next_token_progress : forall fmt i t j,
+  next_token fmt i = Ok (t, j) -> t <> TEnd -> t <> TBad -> i < j /\ j <= length fmt + 1.
+Proof.
+  intros fmt i t j H Hne Hnb. unfold next_token in H.
+  destruct (rd fmt i) as [c0|] eqn:E0; [|discriminate].
+  destruct (c0 =? 0); [inversion H; subst; contradiction|].
+  destruct (skip_lit fmt i (scan_fuel fmt)) as [j0| |] eqn:El; try discriminate.
+  apply skip_lit_ok in El.
+  destruct (Nat.eqb_spec j0 i) as [Ej|Ej]; cbn [negb] in H.
+  - subst j0.
+    assert (Hspec : match skip_spec print_convs fmt i (scan_fuel fmt) with
+            | Ok j' => if negb (j' =? i)
+                       then match buf_put fmt i (j' - i + 1), rd fmt j' with
+                            | Some p, Some c => Ok (TSpec p c, j' + 1)
+                            | _, _ => Crash
+                            end
+                       else Ok (TBad, i)
+            | Crash => Crash
+            | Fuel => Fuel
+            end = Ok (t, j) -> i < j /\ j <= length fmt + 1).
+    { intros Hs. destruct (skip_spec print_convs fmt i (scan_fuel fmt)) as [j'| |] eqn:Es; try discriminate.
+      apply skip_spec_ok in Es.
+      destruct (Nat.eqb_spec j' i); cbn [negb] in Hs.
+      - inversion Hs; subst. contradiction.
+      - destruct (buf_put fmt i (j' - i + 1)); [|discriminate].
+        destruct (rd fmt j'); [|discriminate]. inversion Hs; subst. lia. }
+    destruct (c0 =? PCT).
+    + destruct (rd fmt (i + 1)) as [c1|] eqn:E1; [|discriminate].
+      apply rd_some_le in E1.
+      destruct (c1 =? PCT).
+      * inversion H; subst. rewrite pct_skip_is_2. lia.
+      * apply Hspec. exact H.
+    + apply Hspec. exact H.
+  - destruct (buf_put fmt i (j0 - i)); [|discriminate]. inversion H; subst. lia.
+Qed.
+
+Lemma next_token_no_fuel : forall fmt i, i <= length fmt + 1 -> next_token fmt i <> Fuel.
+Proof.
+  intros fmt i Hi. unfold next_token.
+  destruct (rd fmt i) as [c0|] eqn:E0; [|discriminate].
+  apply rd_some_le in E0.
+  destruct (c0 =? 0); [discriminate|].
+  pose proof (skip_lit_fuel fmt (scan_fuel fmt) i) as Fl.
+  pose proof (skip_spec_fuel print_convs fmt (scan_fuel fmt) i) as Fs.
+  unfold scan_fuel in *.
+  destruct (skip_lit fmt i (length fmt + 2)) as [j0| |]; [|discriminate|exfalso; apply Fl; [lia|lia|reflexivity]].
+  assert (Hspec : match skip_spec print_convs fmt i (length fmt + 2) with
+            | Ok j' => if negb (j' =? i)
+                       then match buf_put fmt i (j' - i + 1), rd fmt j' with
+                            | Some p, Some c => Ok (TSpec p c, j' + 1)
+                            | _, _ => Crash
+                            end
+                       else Ok (TBad, i)
+            | Crash => Crash
+            | Fuel => Fuel
+            end <> Fuel).
+  { destruct (skip_spec print_convs fmt i (length fmt + 2)) as [j'| |]; [|discriminate|exfalso; apply Fs; [lia|lia|reflexivity]].
+    destruct (negb (j' =? i)); [|discriminate].
+    destruct (buf_put fmt i (j' - i + 1)); [|discriminate]. destruct (rd fmt j'); discriminate. }
+  destruct (negb (j0 =? i)).
+  - destruct (buf_put fmt i (j0 - i)); discriminate.
+  - destruct (c0 =? PCT); [|exact Hspec].
+    destruct (rd fmt (i + 1)) as [c1|]; [|discriminate]. destruct (c1 =? PCT); [discriminate|exact Hspec].
+Qed.
+
+Lemma scan_loop_no_fuel : forall fmt fuel i,
+  i <= length fmt + 1 -> length fmt + 2 <= fuel + i -> scan_loop fmt i fuel <> Fuel.
+Proof.
+  intros fmt. induction fuel as [|f IH]; intros i Hi Hf; [lia|].
+  cbn [scan_loop].
+  destruct (next_token fmt i) as [[t j]| |] eqn:En; [|discriminate|exfalso; eapply next_token_no_fuel; eauto].
+  destruct t as [|p| |p c|]; try discriminate;
+    (destruct (next_token_progress fmt i _ j En) as [P1 P2]; [discriminate|discriminate|];
+     specialize (IH j P2 ltac:(lia)); destruct (scan_loop fmt j f); [discriminate|discriminate|contradiction]).
+Qed.
+
+Theorem scan_no_fuel : forall fmt, scan fmt <> Fuel.
+Proof. intros fmt. unfold scan, loop_fuel. apply scan_loop_no_fuel; lia. Qed.
+
+Section FuelProofs.
+Variable V : Type.
+Variable render : list byte -> ckind -> V -> option (list byte).
+Variable show : V -> list byte.
+
+Lemma print_loop_no_fuel : forall fmt args fuel i st,
+  i <= length fmt + 1 -> length fmt + 2 <= fuel + i -> print_loop V render show fmt args i st fuel <> OFuel.
+Proof.
+  intros fmt args. induction fuel as [|f IH]; intros i st Hi Hf; [lia|].
+  cbn [print_loop].
+  destruct (next_token fmt i) as [[t j]| |] eqn:En; [|discriminate|exfalso; eapply next_token_no_fuel; eauto].
+  destruct t as [|p| |p c|]; try discriminate.
+  - destruct (next_token_progress fmt i _ j En) as [P1 P2]; [discriminate|discriminate|].
+    destruct (exec V render show (TLit p) args st); [apply IH; lia|discriminate].
+  - destruct (next_token_progress fmt i _ j En) as [P1 P2]; [discriminate|discriminate|].
+    destruct (exec V render show TPct args st); [apply IH; lia|discriminate].
+  - destruct (next_token_progress fmt i _ j En) as [P1 P2]; [discriminate|discriminate|].
+    destruct (exec V render show (TSpec p c) args st); [apply IH; lia|discriminate].
+Qed.
+
+Theorem print_to_no_fuel : forall k pos fmt args, print_to V render show k pos fmt args <> OFuel.
+Proof. intros. unfold print_to, print_to_from, loop_fuel. apply print_loop_no_fuel; lia. Qed.
+
+End FuelProofs.
+
+(* ------------------------------------------------------------------------------------------ *)
+(* Show of a sequence container: its elements' own show texts, each once, in iteration order *)
+
+Lemma write_all_app : forall a b k pos,
+  write_all k pos (a ++ b) = write_all (write_all k pos a) (pos + length (concat a)) b.
+Proof.
+  induction a as [|t a IH]; intros b k pos; cbn [app write_all concat length].
+  - rewrite Nat.add_0_r. reflexivity.
+  - rewrite IH. rewrite app_length. rewrite Nat.add_assoc. reflexivity.
+Qed.
+
+Fixpoint join (sep : list byte) (l : list (list byte)) : list byte :=
+  match l with
+  | [] => []
+  | x :: r => match r with [] => x | _ => x ++ sep ++ join sep r end
+  end.
+
+Section ShowProofs.
+Variable V : Type.
+Variable render : list byte -> ckind -> V -> option (list byte).
+Variable show : V -> list byte.
+
+Notation texts := (texts V render show).
+
+(* the texts of the calls Array_Show makes for its elements: show e1, ", ", show e2, ... *)
+Fixpoint sep_texts (elems : list V) : list (list byte) :=
+  match elems with
+  | [] => []
+  | e :: rest => show e :: match rest with [] => [] | _ => SEP :: sep_texts rest end
+  end.
+
+Lemma sep_texts_join : forall elems, concat (sep_texts elems) = join SEP (map show elems).
+Proof.
+  induction elems as [|e rest IH]; [reflexivity|].
+  cbn [sep_texts map join concat]. destruct rest as [|e2 rest'].
+  - cbn [concat map]. apply app_nil_r.
+  - cbn [map]. cbn [map] in IH. rewrite <- IH. reflexivity.
+Qed.
+
+Lemma print_from_done : forall items args st ts,
+  wf_items items = true -> p_idx st = 0 -> texts items args = Some ts ->
+  exists st', print_to_from V render show st (unparse items) args = ODone st'
+    /\ p_sink st' = write_all (p_sink st) (p_pos st) ts
+    /\ p_pos st' = p_pos st + length (concat ts).
+Proof.
+  intros items args st ts Hwf Hi Ht.
+  rewrite print_to_from_items by exact Hwf.
+  pose proof (run_items_texts V render show items args st Hwf) as R.
+  rewrite Hi in R. cbn [skipn] in R. rewrite Ht in R. destruct R as [st' [E [A [B C]]]].
+  exists st'. rewrite E. repeat split; assumption.
+Qed.
+
+Lemma sep_wf : wf_items [Lit SEP] = true.
+Proof. reflexivity. Qed.
+
+Lemma dollar_wf : wf_items [ShowDollar] = true.
+Proof. reflexivity. Qed.
+
+Lemma show_elems_spec : forall elems st,
+  exists st', show_elems V render show (ODone st) elems = ODone st'
+    /\ p_sink st' = write_all (p_sink st) (p_pos st) (sep_texts elems)
+    /\ p_pos st' = p_pos st + length (concat (sep_texts elems)).
+Proof.
+  induction elems as [|e rest IH]; intros st.
+  - exists st. cbn [show_elems sep_texts write_all concat length]. repeat split. lia.
+  - cbn [show_elems then_print].
+    destruct (print_from_done [ShowDollar] [e] (mkP (p_sink st) (p_pos st) 0 (p_calls st)) [show e] dollar_wf eq_refl eq_refl)
+      as [st1 [E1 [A1 B1]]].
+    change (unparse [ShowDollar]) with [PCT; DOLLAR] in E1. rewrite E1.
+    cbn [p_sink p_pos concat] in A1, B1. rewrite app_nil_r in B1.
+    destruct rest as [|e2 rest'].
+    + cbn [show_elems sep_texts]. exists st1. cbn [write_all concat]. rewrite app_nil_r.
+      repeat split; assumption.
+    + cbn [then_print].
+      destruct (print_from_done [Lit SEP] [] (mkP (p_sink st1) (p_pos st1) 0 (p_calls st1)) [SEP] sep_wf eq_refl eq_refl)
+        as [st2 [E2 [A2 B2]]].
+      change (unparse [Lit SEP]) with SEP in E2. rewrite E2.
+      cbn [p_sink p_pos concat] in A2, B2. rewrite app_nil_r in B2.
+      destruct (IH st2) as [st3 [E3 [A3 B3]]].
+      exists st3. split; [exact E3|].
+      set (tl := sep_texts (e2 :: rest')) in *.
+      change (sep_texts (e :: e2 :: rest')) with (show e :: SEP :: tl).
+      cbn [write_all concat]. rewrite A3, B3, A2, B2, A1, B1. cbn [write_all].
+      rewrite !app_length. split; [reflexivity|lia].
+Qed.
+
+Theorem show_seq_spec : forall oi ci self elems k pos tops tcl,
+  wf_items oi = true -> wf_items ci = true ->
+  texts oi [self] = Some tops -> texts ci [] = Some tcl ->
+  exists st, show_seq V render show (unparse oi) (unparse ci) self elems k pos = ODone st
+    /\ p_sink st = write_all k pos (tops ++ sep_texts elems ++ tcl)
+    /\ p_pos st = pos + length (concat tops ++ join SEP (map show elems) ++ concat tcl).
+Proof.
+  intros oi ci self elems k pos tops tcl Ho Hc Hto Htc. unfold show_seq.
+  destruct (print_to_done V render show oi [self] k pos tops Ho Hto) as [st0 [E0 [A0 [B0 _]]]].
+  rewrite E0.
+  destruct (show_elems_spec elems st0) as [st1 [E1 [A1 B1]]]. rewrite E1.
+  cbn [then_print].
+  destruct (print_from_done ci [] (mkP (p_sink st1) (p_pos st1) 0 (p_calls st1)) tcl Hc eq_refl Htc) as [st2 [E2 [A2 B2]]].
+  rewrite E2. exists st2. split; [reflexivity|].
+  cbn [p_sink p_pos] in A2, B2.
+  rewrite !write_all_app. rewrite A2, B2, A1, B1, A0, B0.
+  rewrite <- sep_texts_join. rewrite !app_length.
+  split; [reflexivity|lia].
+Qed.
+
+End ShowProofs.
